@@ -186,10 +186,14 @@ func c12RealBackends(ctx *Ctx) {
 			}
 			if w.cmdDir != "" {
 				// the read-back of the next cycle is sometimes unusable: then the value must be written all the same
-				if r.Intn(3) == 0 {
+				_ = os.Remove(filepath.Join(w.cmdDir, "garble"))
+				_ = os.Remove(filepath.Join(w.cmdDir, "flaky"))
+				switch r.Intn(4) {
+				case 0:
 					_ = os.WriteFile(filepath.Join(w.cmdDir, "garble"), []byte("1"), 0644)
-				} else {
-					_ = os.Remove(filepath.Join(w.cmdDir, "garble"))
+				case 1:
+					// ... or only every second query of the cycle is (beginning with the second or with the first)
+					_ = os.WriteFile(filepath.Join(w.cmdDir, "flaky"), []byte(pick(r, "0", "1")), 0644)
 				}
 			}
 			return false
